@@ -310,7 +310,7 @@ class BodyGen:
         r = self.rnd
         out = []
         while size > 0:
-            form = r.choice(['assign'] * 5 + ['if'] * 3 + ['match', 'forbreak', 'helper', 'local'])
+            form = r.choice(['assign'] * 5 + ['if'] * 3 + ['match', 'forbreak', 'helper', 'local'] + (['matchret'] if r.random() < 0.15 else []))
             if depth <= 0 and form in ('if', 'match', 'forbreak'):
                 form = 'assign'
             # every early-exit construct multiplies the compiler's open blocks: keep their number small,
@@ -353,6 +353,20 @@ class BodyGen:
                 d = self.nested(lambda: self.seq_body(1, depth - 1)) if r.random() < 0.6 else None
                 out.append(('match', o.src, arms, d))
                 self.features.add('match' + ('-default' if d else ''))
+                size -= 2
+            elif form == 'matchret':
+                subj = self.eg.readable(lambda o: o.kind in ('u', 'bv') and o.w <= 2 and o.role not in ('const',))
+                if not subj or depth != self.top_depth:
+                    continue
+                o = r.choice(subj)
+                vals = r.sample(range(1 << o.w), r.randint(1, (1 << o.w) - 1))
+                arms = []
+                for v in vals:
+                    pat = str(v) if o.kind == 'u' else f"'{v:0{o.w}b}'"
+                    arms.append((pat, self.nested(lambda: self.seq_body(1, 0)) + [('ret', None)]))
+                # every case returns, there is no default: the statements behind the match run when no case matches
+                out.append(('match', o.src, arms, None))
+                self.features.add('match-all-cases-return')
                 size -= 2
             elif form == 'forbreak':
                 n = r.randint(2, 4)
@@ -429,6 +443,8 @@ class BodyGen:
             forms = ['simple'] * 3 + ['await'] * 3 + ['awaittrue', 'if', 'if', 'while', 'while']
             if r.random() < 0.25:
                 forms += ['comment', 'whilefalse']
+            if depth > 0 and r.random() < 0.3:
+                forms += ['match']
             if in_loop:
                 forms += ['break', 'continue'] if ticked else ['break']
             if self.allow.get('subs', True) and not in_sub and depth > 0:
@@ -480,6 +496,29 @@ class BodyGen:
                 self.features.add('if-in-coroutine')
                 ticked = t_all and ticked or (t_all and els is not None)
                 size -= 2
+            elif form == 'match':
+                subj = self.eg.readable(lambda o: o.kind in ('u', 'bv') and o.w is not None and o.w >= 2 and o.role in ('in', 'sig', 'out'))
+                if not subj:
+                    continue
+                o = r.choice(subj)
+                ssrc, sk = (o.src, o.kind) if o.w == 2 else (f"{o.src}[1:0]", 'bv')
+                vals = r.sample(range(4), r.randint(1, 3))
+                arms = []
+                t_all = True
+                for v in vals:
+                    b, t = self.coro_body(r.randint(1, 3), depth - 1, in_loop, ticked, in_sub)
+                    arms.append((str(v) if sk == 'u' else f"'{v:02b}'", b))
+                    t_all = t_all and t
+                d = None
+                if r.random() < 0.5:
+                    d, t = self.coro_body(r.randint(1, 2), depth - 1, in_loop, ticked, in_sub)
+                    t_all = t_all and t
+                else:
+                    t_all = t_all and ticked
+                out.append(('match', ssrc, arms, d))
+                self.features.add('match-in-coroutine')
+                ticked = t_all and ticked or (t_all and d is not None)
+                size -= 2
             elif form == 'while':
                 cond = None if r.random() < 0.25 else self.eg.cond(1)
                 b, _ = self.coro_body(r.randint(1, 4), depth - 1, True, False, in_sub)
@@ -520,9 +559,16 @@ class BodyGen:
         return out, ticked
 
     def sub_arg(self, k, w):
+        # arguments are run-time objects: with a constant argument, conditions inside the sub-coroutine fold at compile time
+        # (`if not (p0 < p0):`), and whether an await behind such a folded branch is still the "first action" is decided by
+        # the folding, which the reference rendering does not model (seen in the thorough tier) - constants only as a last resort
         c = self.eg.readable(lambda o: o.kind == k and o.w == w and o.role in ('in', 'sig', 'out'))
-        if c and self.rnd.random() < 0.8:
+        if c:
             return self.rnd.choice(c).src
+        c = self.eg.readable(lambda o: o.kind == k and (o.w or 0) >= (w or 0) and o.role in ('in', 'sig', 'out'))
+        if c and k != 'bit':
+            o = self.rnd.choice(c)
+            return f"{o.src}[{w - 1}:0].unsigned" if k == 'u' else f"{o.src}[{w - 1}:0]"
         return self.eg.typed_const(k, w)
 
     def sub(self, depth):
